@@ -625,12 +625,34 @@ type reverseSegmentScanner struct {
 // newReverseSegmentScanner creates a scanner that iterates from the given
 // offset backwards.
 func newReverseSegmentScanner(segment *segment, startOffset int64) *reverseSegmentScanner {
-	// Convert log offset to index entry offset
-	entryOffset := startOffset - segment.BaseOffset
+	// Convert log offset to index entry offset. Because the segment could be
+	// compacted, the index must be searched: the entry of an offset is not
+	// necessarily at offset - BaseOffset.
+	entryOffset := segment.findLastEntryIndex(startOffset)
 	return &reverseSegmentScanner{
 		s:   segment,
 		ris: newReverseIndexScanner(segment.Index, entryOffset),
 	}
+}
+
+// findLastEntryIndex returns the position in the index of the last entry whose
+// offset is less than or equal to the given offset or -1 if there is no such
+// entry.
+func (s *segment) findLastEntryIndex(offset int64) int64 {
+	s.RLock()
+	defer s.RUnlock()
+	var (
+		entry = &entry{}
+		n     = int(s.Index.CountEntries())
+	)
+	idx := sort.Search(n, func(i int) bool {
+		if err := s.Index.ReadEntryAtLogOffset(entry, int64(i)); err != nil {
+			// Stop here, the scanner will surface the error.
+			return true
+		}
+		return entry.Offset > offset
+	})
+	return int64(idx) - 1
 }
 
 // newReverseSegmentScannerFromEnd creates a scanner that starts at the last
